@@ -20,9 +20,9 @@ func (x *Exec) loopEnv(fr *Frame, li *loopInfo, c *SpecCtx, phiVal func(*ssa.Phi
 			break
 		}
 		if phi.Comment != "" {
-			c.env[phi.Comment] = envEntry{phiVal(phi), phi.Type()}
+			c.env[phi.Comment] = envEntry{v: phiVal(phi), t: phi.Type()}
 		}
-		c.env[phi.Name()] = envEntry{phiVal(phi), phi.Type()}
+		c.env[phi.Name()] = envEntry{v: phiVal(phi), t: phi.Type()}
 	}
 }
 
@@ -103,18 +103,18 @@ func (x *Exec) bindFrameNames(fr *Frame, b *ssa.BasicBlock, c *SpecCtx) {
 				continue
 			}
 			if kindOf(et) == KStruct {
-				c.env[name] = envEntry{AddrV{sc.T}, et}
+				c.env[name] = envEntry{v: AddrV{sc.T}, t: et}
 			} else if sc.Loc != nil {
-				c.env[name] = envEntry{x.load(c.cur, sc.Loc, et), et}
+				c.env[name] = envEntry{v: x.load(c.cur, sc.Loc, et), t: et, loc: sc.Loc}
 			}
 			continue
 		}
-		c.env[name] = envEntry{v, cd.v.Type()}
+		c.env[name] = envEntry{v: v, t: cd.v.Type()}
 	}
 	// parameters last: a parameter that was never reassigned keeps its name
 	for _, p := range fn.Params {
 		if _, shadow := c.env[p.Name()]; !shadow {
-			c.env[p.Name()] = envEntry{fr.vals[p], p.Type()}
+			c.env[p.Name()] = envEntry{v: fr.vals[p], t: p.Type()}
 		}
 	}
 	for _, fv := range fn.FreeVars {
@@ -125,11 +125,11 @@ func (x *Exec) bindFrameNames(fr *Frame, b *ssa.BasicBlock, c *SpecCtx) {
 		if sc, ok := v.(Sc); ok && sc.Loc != nil {
 			et := derefType(fv.Type())
 			if et != nil && kindOf(et) != KStruct {
-				c.env[fv.Name()] = envEntry{x.load(c.cur, sc.Loc, et), et}
+				c.env[fv.Name()] = envEntry{v: x.load(c.cur, sc.Loc, et), t: et, loc: sc.Loc}
 				continue
 			}
 		}
-		c.env[fv.Name()] = envEntry{v, fv.Type()}
+		c.env[fv.Name()] = envEntry{v: v, t: fv.Type()}
 	}
 }
 
@@ -140,7 +140,7 @@ func (x *Exec) bindBlockNames(fr *Frame, b *ssa.BasicBlock, c *SpecCtx) {
 		case *ssa.Phi:
 			if i.Comment != "" {
 				if v, ok := fr.vals[i]; ok {
-					c.env[i.Comment] = envEntry{v, i.Type()}
+					c.env[i.Comment] = envEntry{v: v, t: i.Type()}
 				}
 			}
 		case *ssa.DebugRef:
@@ -150,9 +150,9 @@ func (x *Exec) bindBlockNames(fr *Frame, b *ssa.BasicBlock, c *SpecCtx) {
 			if obj := i.Object(); obj != nil {
 				if _, isVar := obj.(*types.Var); isVar {
 					if v, ok := fr.vals[i.X]; ok {
-						c.env[obj.Name()] = envEntry{v, i.X.Type()}
+						c.env[obj.Name()] = envEntry{v: v, t: i.X.Type()}
 					} else if _, isConst := i.X.(*ssa.Const); isConst {
-						c.env[obj.Name()] = envEntry{x.value(fr, i.X), i.X.Type()}
+						c.env[obj.Name()] = envEntry{v: x.value(fr, i.X), t: i.X.Type()}
 					}
 				}
 			}
@@ -431,6 +431,10 @@ func (e *Engine) verifyFunction(key string) (*FuncResult, error) {
 	} else if has {
 		x.topMods = mods
 		x.hasMods = true
+	}
+	for _, inv := range con.Invokes {
+		x.heap(st, "G$invoked$"+inv, "Bool")
+		x.setHeap(st, "G$invoked$"+inv, "Bool", "false")
 	}
 	// vacuity: the precondition must be satisfiable
 	x.obls = append(x.obls, &Obl{Name: key + "/vacuity/requires", Kind: "vacuity", Fn: key, Formula: "false", Prefix: len(x.items), Text: "preconditions are satisfiable (expected: sat)", x: x})
